@@ -15,7 +15,7 @@ from ..core import guarded
 ID = "C01"
 TECHNIQUE = ("Hypothesis-generated (system, bath, theory, options, basis) with the two tensor identities evaluated on "
              "every element / time index / basis, and a differential secular-vs-full comparison")
-LEVEL = ("For generated aggregates (2-3 sites quick, up to 4 thorough; per-site overdamped Brownian baths, 50-400 K) "
+LEVEL = ("(Also: secularize() called explicitly, repeatedly and in different bases; one site up to 3500 1/cm away for Foerster-type theories.) For generated aggregates (2-3 sites quick, up to 4 thorough; per-site overdamped Brownian baths, 50-400 K) "
          "and all theories reachable through get_RelaxationTensor (standard Redfield static/time dependent, operator/"
          "tensor form, cut-off time, secular; Foerster static/time dependent; combined Redfield-Foerster with generated "
          "coupling cut-off, static/time dependent, secular), the direct constructors in the documented pattern, and "
